@@ -200,6 +200,8 @@ def unit_stft_fresh(prop):
             for lab, e in C.INV:
                 ex.oblige(st, ex.spec(st, e), f"inv_of_empty_utterance.{lab}[{mode}]", "lemma")
             u.obligations += ex.obligations
+        u.to_case = C.to_case_c04
+        u.replay_module = "rtc.c04"
         return u
     unit.__name__ = "stft_fresh_state"
     return unit
